@@ -15,6 +15,7 @@ package main
 import (
 	"bufio"
 	"bytes"
+	"encoding/binary"
 	"encoding/json"
 	"flag"
 	"fmt"
@@ -41,20 +42,20 @@ type budget struct {
 }
 
 var budgets = map[string]budget{
-	"C06": {60000, 3000000, 40, 900},
-	"C07": {16000, 1000000, 50, 1200},
-	"C08": {20000, 1500000, 50, 1200},
-	"C09": {6000, 300000, 60, 1200},
-	"C10": {30000, 2000000, 40, 900},
-	"C11": {30000, 2000000, 40, 900},
-	"C12": {16000, 1000000, 50, 1200},
-	"C13": {20000, 1000000, 50, 1200},
-	"C14": {16000, 1000000, 50, 1200},
-	"C15": {24000, 1500000, 50, 1200},
-	"C16": {16000, 1000000, 50, 1200},
-	"C17": {20000, 1000000, 50, 900},
-	"C18": {20000, 1000000, 50, 900},
-	"C20": {30000, 2000000, 40, 900},
+	"C06": {800000, 30000000, 120, 2400},
+	"C07": {300000, 12000000, 120, 2400},
+	"C08": {16000, 600000, 150, 2400},
+	"C09": {80000, 3000000, 150, 2400},
+	"C10": {300000, 12000000, 120, 2400},
+	"C11": {400000, 16000000, 120, 2400},
+	"C12": {500000, 20000000, 120, 2400},
+	"C13": {400000, 16000000, 120, 2400},
+	"C14": {300000, 12000000, 120, 2400},
+	"C15": {500000, 20000000, 120, 2400},
+	"C16": {400000, 16000000, 120, 2400},
+	"C17": {300000, 12000000, 120, 2400},
+	"C18": {300000, 12000000, 120, 2400},
+	"C20": {600000, 24000000, 120, 2400},
 }
 
 var levels = map[string]string{"C18": "fault_enumeration"}
@@ -208,6 +209,10 @@ func worker(bin, scratch string, env map[string]string, timeout time.Duration, t
 	c := exec.Command(bin, "-test.run", "^TestWorker$", "-test.timeout", "0")
 	c.Dir = scratch
 	c.Env = append(os.Environ(), "SIM_OUT="+out)
+	if _, ok := env["GOMAXPROCS"]; !ok {
+		// one thread runs at a time inside a simulation; more Ps only add hand-off noise
+		c.Env = append(c.Env, "GOMAXPROCS=4")
+	}
 	for k, v := range env {
 		c.Env = append(c.Env, k+"="+v)
 	}
@@ -360,7 +365,24 @@ func cmdRun(args []string) {
 	}
 	wg.Wait()
 	tot := stats{Faults: map[string]int{}, Probes: map[string]int{}, Strategies: map[string]int{}, Reasons: map[string]int{}}
-	sigs := map[string]bool{}
+	var allSigs []uint64
+	for w := 0; w < *workers; w++ {
+		b, err := os.ReadFile(filepath.Join(scratch, fmt.Sprintf("out-w%d.jsonl.sigs", w)))
+		if err != nil {
+			continue
+		}
+		for i := 0; i+8 <= len(b); i += 8 {
+			allSigs = append(allSigs, binary.LittleEndian.Uint64(b[i:]))
+		}
+	}
+	sort.Slice(allSigs, func(i, j int) bool { return allSigs[i] < allSigs[j] })
+	nDistinct := 0
+	for i, v := range allSigs {
+		if i == 0 || v != allSigs[i-1] {
+			nDistinct++
+		}
+	}
+	sigs := make([]struct{}, nDistinct)
 	var viols []runOut
 	for w, r := range results {
 		if r.err != nil {
@@ -399,9 +421,6 @@ func cmdRun(args []string) {
 				}
 				for k, v := range st.Reasons {
 					tot.Reasons[k] += v
-				}
-				for _, s := range st.Sigs {
-					sigs[s] = true
 				}
 				if len(tot.Samples) < 3 {
 					tot.Samples = append(tot.Samples, st.Samples...)
@@ -470,8 +489,13 @@ func cmdRun(args []string) {
 			shrunk++
 			in := filepath.Join(scratch, "shrink-in.json")
 			writeJSON(in, rep)
-			recs, err := worker(bin, scratch, map[string]string{"SIM_MODE": "shrink", "SIM_PROP": *prop, "SIM_TIER": *tier, "SIM_IN": in, "SIM_WALL_S": "45"}, 120*time.Second, "shrink")
-			if err == nil && len(recs) > 0 {
+			// a few attempts: behaviour that depends on Go's (unseedable) map iteration order
+			// may not reproduce on every execution
+			for attempt := 0; attempt < 3; attempt++ {
+				recs, err := worker(bin, scratch, map[string]string{"SIM_MODE": "shrink", "SIM_PROP": *prop, "SIM_TIER": *tier, "SIM_IN": in, "SIM_WALL_S": "45"}, 120*time.Second, "shrink")
+				if err != nil || len(recs) == 0 {
+					break
+				}
 				var okFlag bool
 				json.Unmarshal(recs[0]["ok"], &okFlag)
 				if okFlag {
@@ -480,32 +504,42 @@ func cmdRun(args []string) {
 					json.Unmarshal(recs[0]["schedule_tape"], &b)
 					rep["scenario_tape"], rep["schedule_tape"], rep["minimised"] = a, b, true
 					rep["original_tape_lengths"] = []int{len(best.ScenTape), len(best.SchedTape)}
-				} else {
-					os.RemoveAll(scratch)
-					die(2, "NONDETERMINISM: violation %s of seed %d did not reproduce from its recorded tapes", k, best.Seed)
+					break
 				}
 			}
 		}
 		// confirm in a fresh process, with a trace
 		in := filepath.Join(scratch, "replay-in.json")
-		writeJSON(in, rep)
-		recs, err := worker(bin, scratch, map[string]string{"SIM_MODE": "replay", "SIM_PROP": *prop, "SIM_TIER": *tier, "SIM_IN": in, "SIM_TRACE": "1"}, 120*time.Second, "replay")
-		if err != nil || len(recs) == 0 {
-			os.RemoveAll(scratch)
-			die(2, "replay worker failed: %v", err)
-		}
 		var ro runOut
-		json.Unmarshal(recs[0]["run"], &ro)
 		repro := false
-		for _, v := range ro.Violations {
-			if v.Clause+"|"+v.Fingerprint == k {
-				repro = true
-				rep["detail"] = v.Detail
+		attempts := 0
+		for attempts < 4 && !repro {
+			attempts++
+			writeJSON(in, rep)
+			recs, err := worker(bin, scratch, map[string]string{"SIM_MODE": "replay", "SIM_PROP": *prop, "SIM_TIER": *tier, "SIM_IN": in, "SIM_TRACE": "1"}, 120*time.Second, "replay")
+			if err != nil || len(recs) == 0 {
+				os.RemoveAll(scratch)
+				die(2, "replay worker failed: %v", err)
+			}
+			ro = runOut{}
+			json.Unmarshal(recs[0]["run"], &ro)
+			for _, v := range ro.Violations {
+				if v.Clause+"|"+v.Fingerprint == k {
+					repro = true
+					rep["detail"] = v.Detail
+				}
+			}
+			if !repro && attempts == 2 && rep["minimised"] == true {
+				// fall back to the recorded (unshrunk) tapes
+				rep["scenario_tape"], rep["schedule_tape"], rep["minimised"] = best.ScenTape, best.SchedTape, false
 			}
 		}
 		if !repro {
 			os.RemoveAll(scratch)
-			die(2, "NONDETERMINISM: violation %s (seed %d) did not reproduce in a fresh process", k, best.Seed)
+			die(2, "NONDETERMINISM: violation %s (seed %d) did not reproduce in %d fresh processes", k, best.Seed, attempts)
+		}
+		if attempts > 1 {
+			rep["note"] = fmt.Sprintf("reproduced on attempt %d of the fresh-process replay: the behaviour depends on a source the simulator cannot seed (Go map iteration order)", attempts)
 		}
 		rep["scenario"] = ro.Scenario
 		rep["trace"] = ro.Trace
